@@ -605,10 +605,60 @@ func runC01(c *Ctx) {
 	if bal != nil {
 		acc := returnedAlloc(bal, 0)
 		found := 0
-		for _, st := range storesTo(acc) {
-			if st.Parent() != bal || isInitStore(st) {
+		for _, st0 := range storesTo(acc) {
+			if st0.Parent() != bal || isInitStore(st0) {
 				continue
 			}
+			// the per-transaction pass as a part of Balance (`bal, err = part(ns, bal, ...)`): the rule applies to the
+			// part's own subtraction, its parameters (and the fields of a struct it is handed) read as the call's values
+			if call := sizeHelperCall(st0.Val, bal); call != nil && p.inRegion(bal, call.Call.StaticCallee()) {
+				h := call.Call.StaticCallee()
+				p.withFrame(h, call.Call.Args, func() {
+					for _, hb := range h.Blocks {
+						for _, hi := range hb.Instrs {
+							sb, isSub := hi.(*ssa.BinOp)
+							if !isSub || sb.Op != token.SUB {
+								continue
+							}
+							if nm, isNm := sb.Type().(*types.Named); !isNm || nm.Obj().Name() != "Amount" {
+								continue
+							}
+							found++
+							var formsSeen []string
+							young := "-1*field:Height -1*param#2 +1*param#3 +1 < 0"
+							mature := "-1*field:CoinbaseMaturity -1*field:Height +1*param#3 +1 < 0"
+							form := func(from *ssa.BasicBlock, si int) string {
+								iff, isIf := from.Instrs[len(from.Instrs)-1].(*ssa.If)
+								if !isIf {
+									return ""
+								}
+								f, okf := p.cmpForm(iff.Cond, si == 0)
+								if !okf {
+									return ""
+								}
+								formsSeen = append(formsSeen, f.String())
+								return f.String()
+							}
+							ok := !reachableAvoiding(h, nil, sb, func(from *ssa.BasicBlock, si int) bool {
+								s := form(from, si)
+								return s == young || s == mature
+							})
+							c.Check("C01-R1", "immature-or-young-subtraction-guard:Balance", sb.Pos(), ok,
+								"the second balance pass subtracts a credit on a path that is not guarded by 'syncHeight-height+1 < minConf' or 'coinbase and syncHeight-height+1 < CoinbaseMaturity' (canonical forms seen: "+strings.Join(dedup(formsSeen), " | ")+")")
+							ok2 := !reachableAvoiding(h, nil, sb, func(from *ssa.BasicBlock, si int) bool {
+								if form(from, si) == young {
+									return true
+								}
+								ef := edgeFactOf(from, si)
+								return ef != nil && isResultOfCall(ef.V, "IsCoinBaseTx", -1) && ef.Kind == "true"
+							})
+							c.Check("C01-R1", "maturity-only-for-coinbase:Balance", sb.Pos(), ok2, "the maturity subtraction is applied to non-coinbase credits")
+						}
+					}
+				})
+				continue
+			}
+			st := st0
 			found++
 			// the subtraction must be reachable only through (confs < minConf) or (coinbase && confs < maturity)
 			var formsSeen []string
